@@ -22,7 +22,9 @@ Judge(e) ==
                            /\ (e.ret # "panic" => ObsOK(e.post, e.obs))
                            /\ (WellFormed(e.pre) /\ e.ret # "panic" => WellFormed(e.post))
       \* (next_nerrs: Check, right afterwards, of a coherent schema that holds every type name this one mentions)
-      [] e.ev = "check" -> CheckAllowed(e.pre, e.post, e.ret, e.obs.nerrs) /\ e.obs.next_nerrs = 0
+      [] e.ev = "check" -> /\ CheckAllowed(e.pre, e.post, e.ret, e.obs.nerrs) /\ e.obs.next_nerrs = 0
+                           \* every offending relationship is named by an error; nothing of the schema was written, not even a nil map made empty
+                           /\ BlameOK(e.pre, e.obs.blamed, e.obs.unparsed) /\ e.obs.deep_same
       [] OTHER -> FALSE
 
 Init == l = 1
